@@ -47,6 +47,9 @@ func c01() []*Ob {
 	docsWrite := OnField(Callee(fwWrite), "frac.ActiveWriter", "docs")
 	metaWrite := OnField(Callee(fwWrite), "frac.ActiveWriter", "meta")
 	return []*Ob{
+		{Prop: "C01", ID: "C01.13", Engine: "PAIR(two sites)", Floor: 1,
+			Desc:  "a fraction that is kept after replay has had its crash leftovers cut: truncateTails cuts both files on every success path, or — if it skips a fraction that replayed to nothing — the loader removes every such fraction (the removal in loader.load is decided by DocsTotal == 0 alone). Neither alone is required; with both relaxed, a fresh fraction whose first bulk was torn is reused with the torn meta block and the orphan docs block in it, and the replay after the next restart misreads the acknowledged bulks appended behind them",
+			Check: func(c *Ctx) { keptFractionIsTruncated(c) }},
 		{Prop: "C01", ID: "C01.12", Engine: "DOM(truncate)", Floor: 1,
 			Desc:  "the log is cut only where it was read to its end: in Active.Replay every truncation of .docs/.meta (truncateTails, or File.Truncate through whatever helper) is reached only on paths on which ReadDocBlock answered io.EOF — a replay that is left for another reason (the start-up context was cancelled by SIGTERM) and then cuts both files at the position it happened to reach destroys acknowledged bulks; the damage shows at the following start",
 			Check: func(c *Ctx) { truncateOnlyAtEOF(c) }},
@@ -336,7 +339,7 @@ func c01() []*Ob {
 					found := false
 					for _, ref := range *ev.Referrers() {
 						bo, ok := ref.(*ssa.BinOp)
-						if !ok || bo.Op != token.EQL {
+						if !ok || (bo.Op != token.EQL && bo.Op != token.NEQ) {
 							continue
 						}
 						isEOF := func(v ssa.Value) bool {
@@ -357,6 +360,9 @@ func c01() []*Ob {
 							}
 							found = true
 							tb := ifi.Block().Succs[0]
+							if bo.Op == token.NEQ {
+								tb = ifi.Block().Succs[1] // `err != io.EOF` : the end of the log is the false branch
+							}
 							bad := ""
 							for _, b := range fn.Blocks {
 								if b != tb && !(len(tb.Preds) == 1 && tb.Dominates(b)) {
@@ -639,21 +645,115 @@ func truncateOnlyAtEOF(c *Ctx) {
 		g, ok := u.X.(*ssa.Global)
 		return ok && g.Name() == "EOF" && g.Pkg != nil && g.Pkg.Pkg.Path() == "io"
 	}
-	for _, call := range calls {
-		ok := false
-		for _, f := range FactsAtInstr(call.(ssa.Instruction)) {
-			bo, isBo := f.Cond.(*ssa.BinOp)
-			if !isBo || (bo.Op != token.EQL && bo.Op != token.NEQ) || (bo.Op == token.EQL) != f.Val {
+	// evidence that the log has ended, carried by a branch edge: the read answered io.EOF, or it delivered nothing /
+	// fewer bytes than the block it started (the two ways a reader can tell a torn or missing tail)
+	rd := Callee("(*disk.DocBlocksReader).ReadDocBlock")
+	isReadResult := func(v ssa.Value, idx int) bool {
+		for {
+			if cv, ok := v.(*ssa.Convert); ok {
+				v = cv.X
 				continue
 			}
+			break
+		}
+		e, ok := v.(*ssa.Extract)
+		if !ok || e.Index != idx {
+			return false
+		}
+		cl, ok := e.Tuple.(ssa.CallInstruction)
+		return ok && rd(cl)
+	}
+	isLenOfBlock := func(v ssa.Value) bool {
+		for {
+			if cv, ok := v.(*ssa.Convert); ok {
+				v = cv.X
+				continue
+			}
+			break
+		}
+		cl, ok := v.(*ssa.Call)
+		return ok && CallName(cl) == "builtin.len" && isReadResult(cl.Call.Args[0], 0)
+	}
+	usedLength := false
+	evidence := func(f Fact) bool {
+		bo, isBo := f.Cond.(*ssa.BinOp)
+		if !isBo {
+			return false
+		}
+		switch bo.Op {
+		case token.EQL, token.NEQ:
+			if (bo.Op == token.EQL) != f.Val {
+				return false
+			}
 			if isEOF(bo.X) || isEOF(bo.Y) {
-				ok = true
+				return true
+			}
+			if k, isK := ConstInt(bo.Y); isK && k == 0 && isReadResult(bo.X, 1) {
+				return true // nothing was read
+			}
+		case token.LSS, token.GTR, token.LEQ, token.GEQ:
+			// size < len(block)  (in whichever spelling)
+			op, x, y := bo.Op, bo.X, bo.Y
+			if !f.Val {
+				op = map[token.Token]token.Token{token.LSS: token.GEQ, token.GEQ: token.LSS, token.GTR: token.LEQ, token.LEQ: token.GTR}[op]
+			}
+			if op == token.GTR {
+				op, x, y = token.LSS, y, x
+			}
+			if op == token.LSS && isReadResult(x, 1) && isLenOfBlock(y) {
+				usedLength = true
+				return true
 			}
 		}
+		return false
+	}
+	var crosses func(b *ssa.BasicBlock, seen map[*ssa.BasicBlock]bool) bool
+	crosses = func(b *ssa.BasicBlock, seen map[*ssa.BasicBlock]bool) bool {
+		if seen[b] {
+			return true
+		}
+		seen[b] = true
+		if len(b.Preds) == 0 {
+			return false // reached the entry without crossing an evidence edge
+		}
+		for _, p := range b.Preds {
+			ok := false
+			for _, f := range FactsOnEdge(p, b) {
+				if evidence(f) {
+					ok = true
+				}
+			}
+			if !ok && !crosses(p, seen) {
+				return false
+			}
+		}
+		return true
+	}
+	for _, call := range calls {
+		ok := crosses(call.(ssa.Instruction).Block(), map[*ssa.BasicBlock]bool{})
 		if ok {
 			c.Site(call.Pos(), "the files are cut only after the log was read to io.EOF")
 		} else {
 			c.Violation("dom:Replay:truncate-needs-eof", call.Pos(), "Replay can cut .docs/.meta at the replayed position although the log was not read to its end (the loop was left for another reason than io.EOF, e.g. a cancelled context): everything behind that position — acknowledged bulks — is destroyed")
+		}
+	}
+	// "fewer bytes than the block" tells a torn tail only if the reader hands back the block at its declared length:
+	// a reader that cuts the slice to what it read makes every torn block look complete
+	if usedLength {
+		if rdf := c.Fn("(*disk.DocBlocksReader).ReadDocBlock"); rdf != nil {
+			readAt := c.P.MayCall(Callee("(*os.File).ReadAt", "(io.ReaderAt).ReadAt"))
+			for _, rp := range ReturnPaths(rdf, 0) {
+				sl, isSlice := rp.Val.(*ssa.Slice)
+				cut := isSlice && sl.High != nil && DerivesFrom(sl.High, func(v ssa.Value) bool {
+					cl, ok := v.(ssa.CallInstruction)
+					return ok && readAt(cl)
+				})
+				if cut {
+					c.Violation("dom:Replay:length-evidence-needs-full-block", rp.Ret.Pos(), "Replay takes `bytes read < len(block)` for the sign of a torn last block, but ReadDocBlock returns the block cut to the bytes it read: the two are always equal, a torn meta block is handed to the indexer as a complete one (the start-up panics, or reads garbage), and the tail is never cut")
+				} else if !IsNilConst(rp.Val) {
+					c.Site(rp.Ret.Pos(), "ReadDocBlock returns the block at its declared length (short reads are visible to Replay)")
+				}
+			}
 		}
 	}
 }
